@@ -174,6 +174,8 @@ func runC10(w *core.World, r *core.Report) {
 	r.Rule("R6", "DbResource: mustSafe() precedes every db.Get and panics unless Safe()")
 	r.Rule("R7", "SetSession/SetPrefix/SetLanguage store their argument on every path")
 	r.Rule("R8", "memory backend: presence of a key is decided by the map's comma-ok result, never by the value")
+	r.Rule("R13", "the filesystem back end encodes and decodes binary keys with the same base64 alphabet")
+	r.Rule("R12", "the data type, session and language selected on a handle are written by their setters only")
 	r.Rule("R11", "a listing (Dump) leaves the data type, session and language selected on the store handle as it found them")
 	r.Rule("R10", "fs Get answers from the store: every value it returns is what a file read returned in that call (no memoised copy beside the store)")
 	r.Rule("R9", "filesystem listing: the directory cursor is the full listing and only ever advances by one entry (no entry is skipped unexamined)")
@@ -478,6 +480,8 @@ func runC10(w *core.World, r *core.Report) {
 		r.Undecided("R10", "db/fs.(*fsDb).Get", token.NoPos, "anchor not found")
 	}
 	checkDumpKeepsSelection(w, r, "R11")
+	checkSelectionWriters(w, r, "R12")
+	checkBase64Agreement(w, r, "R13")
 }
 
 func keysInt(m map[int64]bool) []int64 {
